@@ -40,6 +40,8 @@ pub fn div_nxm_normalized(numerator: &mut [u64], divisor: &[u64]) {
 
         // Overflow case
         if unlikely(n21 == d) {
+            #[cfg(recmo_uint_verif)]
+            crate::verif_hooks::hit(0);
             let q = u64::MAX;
             let _carry = submul_nx1(&mut numerator[j..j + n], divisor, q);
             numerator[j + n] = q;
@@ -63,6 +65,8 @@ pub fn div_nxm_normalized(numerator: &mut [u64], divisor: &[u64]) {
         // If we have a carry then the quotient was one too large.
         // We correct by decrementing the quotient and adding one divisor back.
         if unlikely(borrow) {
+            #[cfg(recmo_uint_verif)]
+            crate::verif_hooks::hit(1);
             q = q.wrapping_sub(1);
             let carry = adc_n(&mut numerator[j..j + n], &divisor[..n], 0);
             // Expect carry because we flip sign back to positive.
@@ -145,6 +149,8 @@ pub fn div_nxm(numerator: &mut [u64], divisor: &mut [u64]) {
                 // We already have the highest 128 bit, so we can reduce the
                 // computation. We still need to carry propagate into these limbs.
                 let borrow = if shift == 0 {
+                    #[cfg(recmo_uint_verif)]
+                    crate::verif_hooks::hit(4);
                     let borrow = submul_nx1(&mut numerator[j..j + n - 2], &divisor[..n - 2], q);
                     let (r, borrow) = r.overflowing_sub(u128::from(borrow));
                     numerator[j + n - 2] = r.low();
@@ -154,6 +160,8 @@ pub fn div_nxm(numerator: &mut [u64], divisor: &mut [u64]) {
                     // OPT: Can we re-use `r` here somehow? The problem is we can not just
                     // shift the `r` or `borrow` because we need to accurately reproduce
                     // the remainder and carry in the middle of a limb.
+                    #[cfg(recmo_uint_verif)]
+                    crate::verif_hooks::hit(5);
                     let borrow = submul_nx1(&mut numerator[j..j + n], divisor, q);
                     let n2 = numerator.get(j + n).copied().unwrap_or_default();
                     borrow != n2
@@ -162,6 +170,8 @@ pub fn div_nxm(numerator: &mut [u64], divisor: &mut [u64]) {
                 // If we have a carry then the quotient was one too large.
                 // We correct by decrementing the quotient and adding one divisor back.
                 if unlikely(borrow) {
+                    #[cfg(recmo_uint_verif)]
+                    crate::verif_hooks::hit(2);
                     q = q.wrapping_sub(1);
                     let carry = adc_n(&mut numerator[j..j + n], &divisor[..n], 0);
                     // Expect carry because we flip sign back to positive.
@@ -171,6 +181,8 @@ pub fn div_nxm(numerator: &mut [u64], divisor: &mut [u64]) {
             q
         } else {
             // Overflow case
+            #[cfg(recmo_uint_verif)]
+            crate::verif_hooks::hit(3);
             let q = u64::MAX;
             let _carry = submul_nx1(&mut numerator[j..j + n], divisor, q);
             q
